@@ -7,9 +7,13 @@ import (
 	"bytes"
 	"encoding/json"
 	"fmt"
+	"go/ast"
+	"go/parser"
+	"go/token"
 	"os"
 	"os/exec"
 	"path/filepath"
+	"sort"
 	"strings"
 	"sync"
 	"time"
@@ -24,6 +28,7 @@ type Tape struct {
 	Expect  string   `json:"expect"`
 	Sched   bool     `json:"sched"`
 	Env     []int64  `json:"env,omitempty"`  // order of environment events to stage natively (only for library-priority counterexamples)
+	STrace  []TraceEv `json:"strace,omitempty"` // full schedule trace (library-level visible operations + environment events) to stage natively
 	Race    bool     `json:"race,omitempty"` // replay under the race detector
 
 	obs     []ObsVal
@@ -94,7 +99,16 @@ func prepareHarnessDir(genDir string) (string, error) {
 }
 
 func writeOverlayJSON(genDir, hdir string) (string, error) {
+	return writeOverlayJSONx(genDir, hdir, true)
+}
+
+func writeOverlayJSONx(genDir, hdir string, instrument bool) (string, error) {
 	repl := map[string]string{}
+	if instrument {
+		for k, v := range instrumentLibrary(genDir) {
+			repl[k] = v
+		}
+	}
 	for _, hp := range harnessPkgs {
 		ents, _ := os.ReadDir(filepath.Join(hdir, hp.dir))
 		for _, ent := range ents {
@@ -105,6 +119,9 @@ func writeOverlayJSON(genDir, hdir string) (string, error) {
 	}
 	data, _ := json.Marshal(map[string]interface{}{"Replace": repl})
 	p := filepath.Join(genDir, "overlay.json")
+	if !instrument {
+		p = filepath.Join(genDir, "overlay_plain.json")
+	}
 	return p, os.WriteFile(p, data, 0o644)
 }
 
@@ -182,40 +199,92 @@ func runNative(genDir, hdir string, tapes []*Tape) (map[string]*NativeResult, er
 			cmd.Env = goEnv()
 			out, err := cmd.CombinedOutput()
 			if err != nil {
+				// the instrumented copy does not build (unexpected construct): fall back to the plain sources
+				if ov2, e2 := writeOverlayJSONx(genDir, hdir, false); e2 == nil {
+					cmd2 := exec.Command("go", "test", "-c", "-tags", "verif", "-vet=off", "-overlay", ov2, "-o", bin, imp)
+					cmd2.Dir = repoDir
+					cmd2.Env = goEnv()
+					out, err = cmd2.CombinedOutput()
+				}
+			}
+			if err != nil {
 				mu.Lock()
 				firstErr = fmt.Errorf("go test -c %s: %v\n%s", imp, err, out)
 				mu.Unlock()
 				return
 			}
-			run := exec.Command(bin, "-test.run", "^TestVHReplay$", "-test.timeout", "600s")
-			run.Dir = filepath.Join(repoDir)
-			run.Env = append(goEnv(), "VH_TAPES="+tapeFile, "TZ="+replayTZ())
-			var stdout bytes.Buffer
-			run.Stdout = &stdout
-			run.Stderr = &stdout
-			done := make(chan error, 1)
-			go func() { done <- run.Run() }()
-			select {
-			case <-done:
-			case <-time.After(660 * time.Second):
-				run.Process.Kill()
-			}
-			sc := bufio.NewScanner(&stdout)
-			sc.Buffer(make([]byte, 1<<20), 1<<26)
-			for sc.Scan() {
-				line := sc.Text()
-				if strings.HasPrefix(line, "VHRESULT ") {
-					var r NativeResult
-					if err := json.Unmarshal([]byte(line[9:]), &r); err == nil {
-						mu.Lock()
-						results[r.ID] = &r
-						mu.Unlock()
-					}
+			// the tapes of this package, sharded over several processes when there are many (schedule-dependent
+			// counterexamples wait for watchdogs and gates); tapes of one root stay together
+			var mine []*Tape
+			for _, t := range tapes {
+				if harnessPkgOf(hdir, t.Harness) == dir {
+					mine = append(mine, t)
 				}
 			}
+			nsh := 1
+			if len(mine) > 24 {
+				nsh = 8
+			}
+			shards := make([][]*Tape, nsh)
+			rootShard := map[string]int{}
+			for _, t := range mine {
+				root := t.ID
+				if i := strings.IndexByte(root, '#'); i >= 0 {
+					root = root[:i]
+				}
+				k, ok := rootShard[root]
+				if !ok {
+					k = len(rootShard) % nsh
+					rootShard[root] = k
+				}
+				shards[k] = append(shards[k], t)
+			}
+			var swg sync.WaitGroup
+			for k, sh := range shards {
+				if len(sh) == 0 {
+					continue
+				}
+				swg.Add(1)
+				go func(k int, sh []*Tape) {
+					defer swg.Done()
+					tf := filepath.Join(genDir, fmt.Sprintf("tapes_%s_%d.json", dir, k))
+					d, _ := json.Marshal(sh)
+					os.WriteFile(tf, d, 0o644)
+					run := exec.Command(bin, "-test.run", "^TestVHReplay$", "-test.timeout", "900s")
+					run.Dir = filepath.Join(repoDir)
+					run.Env = append(goEnv(), "VH_TAPES="+tf, "TZ="+replayTZ())
+					var stdout bytes.Buffer
+					run.Stdout = &stdout
+					run.Stderr = &stdout
+					done := make(chan error, 1)
+					go func() { done <- run.Run() }()
+					select {
+					case <-done:
+					case <-time.After(960 * time.Second):
+						run.Process.Kill()
+					}
+					sc := bufio.NewScanner(&stdout)
+					sc.Buffer(make([]byte, 1<<20), 1<<26)
+					for sc.Scan() {
+						line := sc.Text()
+						if strings.HasPrefix(line, "VHRESULT ") {
+							var r NativeResult
+							if err := json.Unmarshal([]byte(line[9:]), &r); err == nil {
+								mu.Lock()
+								results[r.ID] = &r
+								mu.Unlock()
+							}
+						}
+					}
+				}(k, sh)
+			}
+			swg.Wait()
 		}(hp.dir, hp.imp)
 	}
 	wg.Wait()
+	if keep := os.Getenv("GOSYM_KEEP"); keep != "" {
+		exec.Command("cp", "-r", genDir, keep).Run() // debugging aid: tapes, overlay, instrumented sources, test binaries
+	}
 	if len(raceTapes) > 0 && firstErr == nil {
 		if err := runRaceTapes(genDir, hdir, ov, raceTapes, results); err != nil {
 			firstErr = err
@@ -378,4 +447,152 @@ func cmdReplay(args []string) int {
 		return 1
 	}
 	return 0
+}
+
+// ---- instrumentation of the library sources for schedule staging ----
+
+// instrumentLibrary returns overlay replacements (original path -> instrumented copy) for the
+// non-test Go files of the root package of /repo: a call vhPoint("file:line") is inserted (on the same
+// line, so that line numbers stay what they are) in front of every statement of library code that
+// performs a visible operation - channel send / receive / close, select, range over a channel, and
+// Do / Wait / Add / Done / Lock / Unlock / RLock / RUnlock method calls - and vhThreadStart("lib:file:line")
+// at the start of every goroutine the library starts.  The copies exist only for the native replay.
+func instrumentLibrary(genDir string) map[string]string {
+	out := map[string]string{}
+	ents, err := os.ReadDir(repoDir)
+	if err != nil {
+		return out
+	}
+	dst := filepath.Join(genDir, "instr")
+	os.MkdirAll(dst, 0o755)
+	for _, ent := range ents {
+		name := ent.Name()
+		if ent.IsDir() || !strings.HasSuffix(name, ".go") || strings.HasSuffix(name, "_test.go") || strings.HasPrefix(name, "zz_") {
+			continue
+		}
+		path := filepath.Join(repoDir, name)
+		src, err := os.ReadFile(path)
+		if err != nil {
+			continue
+		}
+		res, n := instrumentSource(name, src)
+		if n == 0 {
+			continue
+		}
+		p := filepath.Join(dst, name)
+		if os.WriteFile(p, res, 0o644) == nil {
+			out[path] = p
+		}
+	}
+	return out
+}
+
+type insertion struct {
+	off  int
+	text string
+}
+
+func instrumentSource(name string, src []byte) ([]byte, int) {
+	fset := token.NewFileSet()
+	file, err := parser.ParseFile(fset, name, src, 0)
+	if err != nil {
+		return src, 0
+	}
+	var ins []insertion
+	syncMethods := map[string]bool{"Do": true, "Wait": true, "Add": true, "Done": true, "Lock": true, "Unlock": true, "RLock": true, "RUnlock": true}
+	// opLine: line of the first visible operation among the statement's own expressions (0: none)
+	var opLine func(n ast.Node) int
+	opLine = func(n ast.Node) int {
+		line := 0
+		ast.Inspect(n, func(x ast.Node) bool {
+			if line != 0 || x == nil {
+				return false
+			}
+			switch v := x.(type) {
+			case *ast.FuncLit, *ast.BlockStmt:
+				return false // other statement lists are handled on their own
+			case *ast.UnaryExpr:
+				if v.Op == token.ARROW {
+					line = fset.Position(v.OpPos).Line
+					return false
+				}
+			case *ast.SendStmt:
+				line = fset.Position(v.Arrow).Line
+				return false
+			case *ast.CallExpr:
+				if id, ok := v.Fun.(*ast.Ident); ok && id.Name == "close" && len(v.Args) == 1 {
+					line = fset.Position(v.Lparen).Line
+					return false
+				}
+				if sel, ok := v.Fun.(*ast.SelectorExpr); ok && syncMethods[sel.Sel.Name] {
+					line = fset.Position(v.Lparen).Line
+					return false
+				}
+			}
+			return true
+		})
+		return line
+	}
+	visitList := func(list []ast.Stmt) {
+		for _, st := range list {
+			line := 0
+			switch v := st.(type) {
+			case *ast.SelectStmt:
+				line = fset.Position(v.Select).Line
+			case *ast.ExprStmt, *ast.AssignStmt, *ast.ReturnStmt, *ast.SendStmt, *ast.DeclStmt, *ast.IncDecStmt:
+				line = opLine(st)
+			case *ast.IfStmt:
+				if v.Init != nil {
+					line = opLine(v.Init)
+				}
+				if line == 0 {
+					line = opLine(v.Cond)
+				}
+			case *ast.SwitchStmt:
+				if v.Init != nil {
+					line = opLine(v.Init)
+				}
+				if line == 0 && v.Tag != nil {
+					line = opLine(v.Tag)
+				}
+			case *ast.RangeStmt:
+				// range over a channel receives at the head of every iteration: a point at the start of the body
+				// (harmless for other ranges: a point that is not in the trace returns at once)
+				if v.Body != nil {
+					ins = append(ins, insertion{fset.Position(v.Body.Lbrace).Offset + 1, fmt.Sprintf(" vhPoint(\"%s:%d\");", name, fset.Position(v.For).Line)})
+				}
+			}
+			if line != 0 {
+				ins = append(ins, insertion{fset.Position(st.Pos()).Offset, fmt.Sprintf("vhPoint(\"%s:%d\"); ", name, line)})
+			}
+		}
+	}
+	ast.Inspect(file, func(n ast.Node) bool {
+		switch v := n.(type) {
+		case *ast.BlockStmt:
+			visitList(v.List)
+		case *ast.CaseClause:
+			visitList(v.Body)
+		case *ast.CommClause:
+			visitList(v.Body)
+		case *ast.GoStmt:
+			if fl, ok := v.Call.Fun.(*ast.FuncLit); ok && fl.Body != nil {
+				ins = append(ins, insertion{fset.Position(fl.Body.Lbrace).Offset + 1, fmt.Sprintf(" vhThreadStart(\"lib:%s:%d\");", name, fset.Position(v.Go).Line)})
+			}
+		}
+		return true
+	})
+	if len(ins) == 0 {
+		return src, 0
+	}
+	sort.SliceStable(ins, func(i, j int) bool { return ins[i].off < ins[j].off })
+	var buf bytes.Buffer
+	last := 0
+	for _, in := range ins {
+		buf.Write(src[last:in.off])
+		buf.WriteString(in.text)
+		last = in.off
+	}
+	buf.Write(src[last:])
+	return buf.Bytes(), len(ins)
 }
